@@ -335,4 +335,27 @@ impl Status {
     u.fn(RE, 'is_end_stream', within=BW, props=['C02'],
          ensures=[Clause('B3_end_of_stream', 'r == (match self.inner { None => true, Some(b) => b.at_end() })', ['C02'])])
     u.close('}')
+    # ---- tonic::transport::Error (transport/error.rs): the wrapper Channel puts around what its service stack reports; what
+    # matters to C14 / C09 is that the wrapped error stays reachable as its source(), so that the mapping above finds a
+    # ConnectError / TimeoutExpired / Status inside it ----
+    ER = 'tonic/src/transport/error.rs'
+    u._emit('pub mod transport {\nuse super::*;\npub type Source = Box<DynError>;')
+    u.item(ER, 'struct', 'Error')
+    u.item(ER, 'struct', 'ErrorImpl')
+    u.item(ER, 'enum', 'Kind')
+    src = [lambda t: t.sub_code('R12', r'impl Into<Source>', 'Source'), lambda t: t.sub_code('R12', r'impl Into<crate::BoxError>', 'Source')]
+    u._emit('impl Error {'); u._open_header = 'impl Error {'
+    u.fn(ER, 'new', within='impl Error', display='transport::Error::new', ensures=[Clause('X1_an_error_of_this_kind_without_a_cause', 'r.inner.kind == kind && r.inner.source is None')])
+    u.fn(ER, 'with', within='impl Error', sig_edits=src, display='transport::Error::with', ensures=[Clause('X2_the_cause_is_attached_the_kind_stays', 'r.inner.source == Some(source) && r.inner.kind == self.inner.kind')])
+    u.fn(ER, 'from_source', within='impl Error', sig_edits=src, display='transport::Error::from_source',
+         ensures=[Clause('X3_a_transport_error_whose_cause_is_the_wrapped_error', 'r.inner.kind is Transport && r.inner.source == Some(source)')])
+    u.fn(ER, 'new_invalid_uri', within='impl Error', display='transport::Error::new_invalid_uri', ensures=[Clause('X4_kind', 'r.inner.kind is InvalidUri && r.inner.source is None')])
+    u.fn(ER, 'new_invalid_user_agent', within='impl Error', display='transport::Error::new_invalid_user_agent', ensures=[Clause('X5_kind', 'r.inner.kind is InvalidUserAgent && r.inner.source is None')])
+    u.fn(ER, 'source', within='impl StdError for Error', display='transport::Error::source',
+         sig_edits=[lambda t: t.sub_code('R12', r"&\(dyn StdError \+ 'static\)", '&DynError')],
+         body_edits=[lambda t: t.sub_code('R12', r" as &\(dyn StdError \+ 'static\)", '')],
+         closures={0: dict(params='source: &Box<DynError>', ret='(x: &DynError)', ensures=['*x == **source'])},
+         ensures=[Clause('X6_the_cause_reported_is_the_wrapped_error', '(r is None <==> self.inner.source is None) && (r matches Some(x) ==> self.inner.source matches Some(b) && *x == *b)')])
+    u.close('}')
+    u._emit('} // mod transport')
     return u
